@@ -30,6 +30,7 @@ for prop in sorted(os.listdir(SRC)):
                         print(prop, ch, "DOES NOT APPLY - rebase by hand")
                         shutil.copy(os.path.join(d, "patch.diff"), os.path.join(out, "patch.orig.diff"))
                     continue
+            subprocess.run(["git", "add", "-A", "-N"], cwd=w, capture_output=True)      # files the change adds are part of it
             diff = subprocess.run(["git", "diff", "HEAD"], cwd=w, capture_output=True, text=True).stdout
             open(os.path.join(out, "patch.diff"), "w").write(diff)
         finally:
